@@ -17,7 +17,7 @@ T == Rec[l].t
 SetOf(seq) == {seq[k] : k \in 1..Len(seq)}
 
 BlockOf(r) == [n |-> r.n, locs |-> SetOf(r.locs), pre |-> r.ref[1], ref |-> r.ref, refkind |-> r.refkind,
-               fatal_at |-> r.fatal_at, progs |-> <<>>]
+               fatal_at |-> r.fatal_at, progs |-> <<>>, resetOf |-> r.resetOf]
 
 TraceInit == l = 1 /\ Rec[1].l = "RESET" /\ InitFor(BlockOf(Rec[1]))
 
@@ -86,6 +86,7 @@ TraceNext ==
   \/ Has("E_Begin") /\ E_Begin(T) /\ R.tx = loc[T].tx /\ R.status = status[loc[T].tx] /\ R.inc = loc[T].inc
   \/ Has("R_Read") /\ R_Read(T, R.loc) /\ R.tx = loc[T].tx
        /\ R.ver = VerStr(ReadOf(T, R.loc).ver) /\ R.val = ReadOf(T, R.loc).val /\ R.est = ReadOf(T, R.loc).est
+  \/ Has("R_BenBlock") /\ R_BenBlock(T, R.blocker)
   \/ Has("P_Pub") /\ P_Pub(T, R.loc, R.val) /\ R.tx = loc[T].tx /\ R.inc = loc[T].inc /\ R.est = (loc[T].blockers # {})
   \/ Has("E_Done") /\ E_Done(T, KindOf(R)) /\ R.tx = loc[T].tx /\ R.blocked = (loc[T].blockers # {})
        /\ SetOf(R.writes) = loc[T].pubd /\ SetOf(R.blockers) = loc[T].blockers
